@@ -49,7 +49,11 @@ RULE = ("documents from harness/gen_docs_full.py (executable + type-system, ever
         "(text, chain rules); a location-erased stream (every node loc = None as after parse(no_location=True) "
         "or programmatic construction; node identity tracked in a side table) over documents with repeated "
         "structurally equal members in every kind of child list, every position edited; chains of 2-4 "
-        "positions in which one visitor instance stands at several positions, flat and nested ChainedVisitors")
+        "positions in which one visitor instance stands at several positions, flat and nested ChainedVisitors; "
+        "ChainedVisitor subclasses that assign visitors after the base initialiser; histories: one chain "
+        "object visits a fresh parse of the document several times, its visitors attribute appended to / "
+        "re-assigned / reversed / truncated in between, every visit compared with the model run on the "
+        "then-current visitor list")
 
 KINDS = ["Document", "OperationDefinition", "FragmentDefinition", "VariableDefinition", "Variable",
          "SelectionSet", "Field", "Argument", "FragmentSpread", "InlineFragment", "IntValue",
@@ -244,7 +248,16 @@ for _m in dir(DispatchingVisitor):
         setattr(RecD, _m, _left)
 
 
+class LateChain(ChainedVisitor):
+    """a ChainedVisitor subclass that runs the base initialiser first and assigns [visitors] afterwards"""
+
+    def __init__(self, *visitors):
+        super().__init__()
+        self.visitors = tuple(visitors)
+
+
 def build_chain(doc, chain, log):
+    mk_chain = LateChain if chain.get("late") else ChainedVisitor
     idx = index_nodes(doc)
     vs = []
     for i, spec in enumerate(chain["visitors"]):
@@ -262,10 +275,10 @@ def build_chain(doc, chain, log):
 
         def nested(struct):
             parts = [seq[x] if isinstance(x, int) else nested(x) for x in struct]
-            return ChainedVisitor(*parts)
+            return mk_chain(*parts)
         return nested(chain.get("nest") or list(range(len(seq)))), vs
     if chain["chained"]:
-        return ChainedVisitor(*vs), vs
+        return mk_chain(*vs), vs
     return vs[0], vs
 
 
@@ -424,6 +437,42 @@ def corpus():
                 ch = keep_chain(n=n, disp=disp)
                 ch["visitors"][0]["rules"].append([cls, loc, "xreplace:" + new, 10 + k])
                 out.append(visit_case(t, ch))
+    # seeded C18-g: a chain is a function of the CURRENT [visitors] tuple at each visit.
+    # (a) a ChainedVisitor subclass that calls super().__init__() and assigns [visitors] afterwards
+    t = "{ foo, bar { x }, baz }"
+    fields = [p for p in positions(t) if p[0] == "Field"]
+    for n in (1, 2, 3):
+        ch = keep_chain(n=n, chained=True)
+        ch["late"] = True
+        out.append(visit_case(t, ch))
+        for act in ("delete", "skip", "replace"):
+            ch = keep_chain(n=n, chained=True)
+            ch["late"] = True
+            ch["visitors"][n - 1]["rules"].append([fields[1][0], fields[1][1], act, 9])
+            out.append(visit_case(t, ch))
+    for ninst, pos, nest in SHARED_SHAPES[:6]:
+        ch = shared_chain(ninst, pos, nest)
+        ch["late"] = True
+        out.append(visit_case(t, ch))
+    # (b) a chain that already visited a document is extended / re-assigned / reordered / truncated and reused
+    rec = {"disp": False, "rules": []}
+    dele = {"disp": False, "rules": [[fields[1][0], fields[1][1], "delete", 9]]}
+    skp = {"disp": True, "rules": [[fields[2][0], fields[2][1], "skip", 9]]}
+    for late in (False, True):
+        for steps in (
+            [{"positions": [0]}, {"op": "append", "positions": [0, 1]}],
+            [{"positions": [0, 1]}, {"op": "append", "positions": [0, 1, 2]}, {"op": "append", "positions": [0, 1, 2, 0]}],
+            [{"positions": [0, 1]}, {"op": "assign", "positions": [2]}],
+            [{"positions": [0, 1, 2]}, {"op": "reverse", "positions": [2, 1, 0]}],
+            [{"positions": [0, 1, 2]}, {"op": "truncate", "positions": [0]}, {"op": "assign", "positions": [1, 2]}],
+            [{"positions": []}, {"op": "assign", "positions": [0, 1]}],
+            [{"positions": [0]}, {"op": "list", "positions": [1, 0]}, {"op": "assign", "positions": [0]}],
+        ):
+            for visitors in ([rec, rec, rec], [rec, dele, skp], [dele, rec, rec]):
+                c = {"kind": "vhist", "text": t, "visitors": copy.deepcopy(visitors), "steps": steps}
+                if late:
+                    c["late"] = True
+                out.append(c)
     # every gap witness (known findings)
     for t in GAP_WITNESSES.values():
         out.append(visit_case(t, keep_chain()))
@@ -525,6 +574,41 @@ def generate(rng, tier):
                 if rng.random() < 0.6:
                     ch["visitors"][i]["rules"] = _random_rules(rng, ps, rng.randint(1, 2), 500 + 10 * i)
             cases.append(visit_case(text, ch, noloc=rng.random() < 0.3))
+        # a reused chain whose [visitors] is changed between visits; subclass with late assignment
+        if rng.random() < (0.5 if tier == "quick" else 0.8):
+            ninst = rng.randint(1, 3)
+            fps = [p for p in ps if p[0] == "Field"] or ps
+            visitors = []
+            for i in range(ninst):
+                rules = []
+                if rng.random() < 0.5:
+                    k, loc = rng.choice(fps)
+                    if k == "Field":
+                        rules.append([k, loc, rng.choice(["delete", "skip"]), 40 + i])
+                visitors.append({"disp": rng.random() < 0.3, "rules": rules})
+            cur = [rng.randrange(ninst) for _ in range(rng.randint(0, 3))]
+            steps = [{"positions": list(cur)}]
+            for _ in range(rng.randint(1, 3)):
+                op = rng.choice(["append", "assign", "reverse", "truncate", "list"])
+                if op == "append":
+                    cur = cur + [rng.randrange(ninst)]
+                elif op == "reverse":
+                    cur = cur[::-1]
+                elif op == "truncate":
+                    cur = cur[:rng.randint(0, len(cur))]
+                else:
+                    cur = [rng.randrange(ninst) for _ in range(rng.randint(0, 4))]
+                steps.append({"op": op, "positions": list(cur)})
+            c = {"kind": "vhist", "text": text, "visitors": visitors, "steps": steps}
+            if rng.random() < 0.5:
+                c["late"] = True
+            cases.append(c)
+        if rng.random() < 0.3:
+            ch = keep_chain(n=rng.choice([1, 2, 3]), chained=True, disp=rng.random() < 0.3)
+            ch["late"] = True
+            if rng.random() < 0.6:
+                ch["visitors"][-1]["rules"] = _random_rules(rng, ps, rng.randint(1, 2), 60)
+            cases.append(visit_case(text, ch))
         if "{" in text and rng.random() < 0.5:
             cases.append({"kind": "transform", "which": rng.choice([0, 1, 2]), "text": text})
     kinds = sorted(G.DUP_KINDS)
@@ -568,8 +652,49 @@ def _ser_result(res):
         return "ILLFORMED"
 
 
+def hist_chain(case, step):
+    """the chain description (by position) standing in [visitors] at that step"""
+    return {"chained": True, "fresh": {}, "visitors": case["visitors"], "positions": step["positions"]}
+
+
+def run_hist(case):
+    """one chain object, several visits of a fresh parse of the same text, [visitors] changed in between"""
+    log = []
+    doc = parse(case["text"], **G.PARSE_KW)
+    _top, vs = build_chain(doc, {"chained": True, "fresh": {}, "visitors": case["visitors"]}, log)
+    first = [vs[p] for p in case["steps"][0]["positions"]]
+    top = (LateChain if case.get("late") else ChainedVisitor)(*first)
+    out = []
+    for k, step in enumerate(case["steps"]):
+        want = [vs[p] for p in step["positions"]]
+        if k > 0:
+            op = step.get("op", "assign")
+            if op == "append":
+                top.visitors += (want[-1],)
+            elif op == "truncate":
+                top.visitors = top.visitors[:len(want)]
+            elif op == "reverse":
+                top.visitors = top.visitors[::-1]
+            elif op == "list":
+                top.visitors = list(want)
+            else:
+                top.visitors = tuple(want)
+        assert [id(v) for v in top.visitors] == [id(v) for v in want], "history step %d ill-formed" % k
+        start = len(log)
+        res = top.visit(parse(case["text"], **G.PARSE_KW))
+        out.append({"events": log[start:], "result": _ser_result(res)})
+    return {"hist": out}
+
+
 def run_impl(case):
     k = case["kind"]
+    if k == "vhist":
+        try:
+            return run_hist(case)
+        except AssertionError:
+            raise
+        except Exception as e:  # noqa
+            return {"crash": type(e).__name__, "msg": str(e)[:100]}
     if k == "visit":
         doc = parse(case["text"], **G.PARSE_KW)
         log = []
@@ -626,6 +751,11 @@ def _cevents(evs):
 
 def _cin(case):
     k = case["kind"]
+    if k == "vhist":
+        doc = parse(case["text"], **G.PARSE_KW)
+        steps = ["(%s, %s)" % (coq_chain(doc, hist_chain(case, st)), ser.clist(st["positions"], ser.cnat))
+                 for st in case["steps"]]
+        return "(CVisitHist [%s] %s)" % ("; ".join(steps), cnode(doc))
     if k == "visit":
         doc = parse(case["text"], **G.PARSE_KW)
         if "positions" in case["chain"]:
@@ -646,6 +776,13 @@ def to_coq(case, obs):
         o = "OCrash"
     elif obs.get("result") == "ILLFORMED":
         o = "OIllFormed"
+    elif "hist" in obs:
+        if any(h["result"] == "ILLFORMED" for h in obs["hist"]):
+            o = "OIllFormed"
+        else:
+            o = "(OHist [%s])" % "; ".join(
+                "(%s, %s)" % (_cevents(h["events"]), "None" if h["result"] is None else "(Some %s)" % h["result"])
+                for h in obs["hist"])
     elif "events" in obs:
         o = "(OVisit %s %s)" % (_cevents(obs["events"]),
                                 "None" if obs["result"] is None else "(Some %s)" % obs["result"])
@@ -663,6 +800,8 @@ def show_expr(case, obs):
 
 
 def nontrivial(case, obs):
+    if case["kind"] == "vhist":
+        return True
     if case["kind"] != "visit":
         return case["kind"] == "transform"
     ch = case["chain"]
@@ -676,6 +815,8 @@ def canonical(case):
 
 def classify(case, obs):
     k = case["kind"]
+    if k == "vhist":
+        return "events-and-result-tree-of-every-visit-of-a-reused-chain", None
     if k == "visit":
         return "events-and-result-tree-of-visit", None
     if k == "transform":
@@ -766,6 +907,11 @@ def _bracket_children(events):
 
 
 def direct_checks(case, obs):
+    if case["kind"] == "vhist" and "hist" in obs:
+        for k, h in enumerate(obs["hist"]):
+            if _bracket_children(h["events"]) is None and not any(v["rules"] for v in case["visitors"]):
+                return [("balanced-enter-leave (visit %d of the history)" % k, None)]
+        return []
     if case["kind"] != "visit" or "events" not in obs:
         if "crash" in obs and case["kind"] == "visit":
             for v in case["chain"]["visitors"]:
@@ -832,6 +978,17 @@ def direct_checks(case, obs):
 
 
 def shrink(case, is_bad):
+    if case["kind"] == "vhist":
+        st = case["steps"]
+        for i in range(len(st)):
+            for j in range(i + 1, len(st)):
+                cand = dict(case, steps=[dict(st[i], op="assign"), dict(st[j], op="assign")])
+                try:
+                    if is_bad(cand):
+                        return cand
+                except Exception:  # noqa
+                    continue
+        return case
     if case["kind"] != "visit":
         return case
     ch = copy.deepcopy(case["chain"])
